@@ -26,10 +26,47 @@ type ctx struct {
 	prefix string // counter prefix: rt_ / tot_
 	junk   *vlib.PRNG
 
+	seq []seqItem // primary outcomes in call order, for the sequence pass
+
 	prevInput []byte
 	prevSnap  Snap
 	prevInst  *insts.Inst
 	prevOK    bool
+}
+
+type seqItem struct {
+	in        []byte
+	kind      string
+	snap      Snap
+	canonical bool
+}
+
+// sequencePass decodes everything this context has seen once more, on a fresh
+// instance and back to back (no other Decode call in between), and compares
+// with what was observed when the calls were interleaved with cross-checks:
+// a decoder that carries state from one call to the next gives itself away.
+func (c *ctx) sequencePass() {
+	d, _ := newDecoders(c.arch)
+	for _, it := range c.seq {
+		c.before(it.in, "sequence pass")
+		o := safeDecode(d, it.in)
+		c.out.count("sequence_checks", 1)
+		v := viewOf(it.in)
+		wit := map[string]any{"bytes": hx(it.in), "arch": c.arch.String()}
+		if o.Kind != it.kind {
+			c.out.class("C04|state|sequence-dependent|outcome|"+v.Format, it.kind+"-vs-"+o.Kind, it.canonical,
+				"the outcome of Decode depends on the calls made before it", wit)
+			continue
+		}
+		if o.Kind == kInst {
+			if s := snapInst(o.Inst); s != it.snap {
+				f := strings.Join(diffSnap(it.snap, s), "+")
+				c.out.class("C04|state|sequence-dependent|"+it.snap.Format+"|"+f, it.snap.Name, it.canonical,
+					"the decoded instruction depends on the calls made before it (fields "+f+")", wit)
+			}
+		}
+	}
+	c.seq = nil
 }
 
 // newDecoders creates two independent instances in two different goroutines.
@@ -46,6 +83,7 @@ func (c *ctx) fork(label string) *ctx {
 	n := *c
 	n.junk = c.junk.Fork(label)
 	n.prevOK = false
+	n.seq = nil
 	return &n
 }
 
@@ -233,6 +271,7 @@ func (c *ctx) observe(input []byte, canonical bool, label string) (outcome, Snap
 				"decoding the same bytes again after another instruction gives a different instruction (fields "+f+")", wit(map[string]any{"earlier_bytes": hx(c.prevInput)}))
 		}
 	}
+	c.seq = append(c.seq, seqItem{in: input, kind: o.Kind, snap: snap, canonical: canonical})
 	c.prevOK = o.Kind == kInst
 	if c.prevOK {
 		c.prevInput, c.prevSnap, c.prevInst = append([]byte(nil), input...), snap, o.Inst
@@ -268,6 +307,9 @@ func runChild() {
 	case "corpus":
 		c.prefix = "corpus_"
 		runCorpus(p, c)
+	case "mix":
+		c.prefix = "mix_"
+		runMix(p, c, base)
 	default:
 		fmt.Println("unknown part kind", p.Kind)
 		os.Exit(2)
@@ -319,66 +361,169 @@ func descJSON(d gcnasm.Desc) any {
 	return v
 }
 
+// probeRow decides whether the decoder has a table row for opcode op of
+// format f (VOP3a = the 10-bit VOP3 space) and, if so, names it and derives the
+// operand widths from the manuals' mnemonic.
+func probeRow(c *ctx, f gcnasm.Format, op int, count bool) (row, bool) {
+	out := c.out
+	ff := f
+	if f == gcnasm.VOP3a && gcnasm.IsVOP3bOpcode(c.arch, op) {
+		ff = gcnasm.VOP3b
+	}
+	r := row{Arch: c.arch, Format: ff, Opcode: op}
+	probe, err := gcnasm.Encode(r.base())
+	if err != nil {
+		out.rec.Inconclusive(fmt.Sprintf("encoder rejected probe for %s: %v", r.id(), err))
+		return r, false
+	}
+	if got := formatOf(binary.LittleEndian.Uint32(probe)); got != formatNameOf(ff) && !(got == "vop3" && (ff == gcnasm.VOP3a || ff == gcnasm.VOP3b)) && !(got == "vop3p" && ff == gcnasm.VOP3P) {
+		if count {
+			out.count("rt_opcode_values_belonging_to_other_format", 1)
+		}
+		return r, false // e.g. SOP2 OP=125 is the SOP1 encoding
+	}
+	c.before(probe, "probe "+r.id())
+	po := safeDecode(c.dA, probe)
+	if po.Kind == kError && notFoundRE.MatchString(po.Msg) {
+		if count {
+			out.count("rt_opcodes_without_row", 1)
+		}
+		return r, false
+	}
+	if po.Kind == kInst {
+		r.DecName = po.Inst.InstName
+	}
+	names := gcnasm.NamesOf(ff, op)
+	dn := gcnasm.NormName(r.DecName)
+	switch {
+	case dn != "" && dn == names.GCN3, dn != "" && dn == names.CDNA3:
+		r.IsaName = dn
+	case dn == "":
+		r.IsaName = gcnasm.NameOf(c.arch, ff, op)
+		r.DecName = r.IsaName
+	}
+	if r.IsaName != "" {
+		r.W = gcnasm.WidthsOf(ff, op, r.IsaName)
+	}
+	if !count {
+		return r, true
+	}
+	out.count("rt_rows", 1)
+	out.count("rt_rows_"+ff.String(), 1)
+	if r.IsaName == "" {
+		out.count("rt_rows_name_mismatch", 1)
+		out.dist("name_mismatch", fmt.Sprintf("%s/%d dec=%s gcn3=%s cdna3=%s", ff, op, dn, names.GCN3, names.CDNA3))
+	} else if !r.W.Known {
+		out.count("rt_rows_widths_not_modelled", 1)
+	} else {
+		out.count("rt_rows_width_checked", 1)
+	}
+	return r, true
+}
+
+func opcodeSpace(f gcnasm.Format) int {
+	if f == gcnasm.VOP3a {
+		return 896 // 896.. is the VOP3P encoding (ENCODING 110100111)
+	}
+	return 1 << gcnasm.OpcodeFieldBits(f)
+}
+
+// runMix: one encoding of every row of every format (plus literal and SDWA
+// forms), decoded back to back in several shuffled orders on one instance;
+// each result must equal the one obtained after a neutral predecessor
+// (s_nop) on another instance. This is the cross-format part of the "no
+// state between calls" check.
+func runMix(p part, c *ctx, base *vlib.PRNG) {
+	type item struct {
+		b    []byte
+		name string
+	}
+	var items []item
+	for _, f := range rtFormats {
+		for op := 0; op < opcodeSpace(f); op++ {
+			r, ok := probeRow(c, f, op, false)
+			if !ok {
+				continue
+			}
+			pats := r.patterns(base, 0)
+			picked := map[string]bool{}
+			for _, pt := range pats {
+				kind := ""
+				switch {
+				case pt.ID == "base":
+					kind = "base"
+				case strings.Contains(pt.ID, "lit("):
+					kind = "lit:" + strings.SplitN(pt.ID, "#", 2)[0]
+				case pt.ID == "sdwa:default":
+					kind = "sdwa"
+				}
+				if kind == "" || picked[kind] {
+					continue
+				}
+				if enc, err := gcnasm.Encode(pt.D); err == nil {
+					picked[kind] = true
+					items = append(items, item{exact(enc), gcnasm.NormName(r.DecName) + "/" + kind})
+				}
+			}
+		}
+	}
+	nop := gcnasm.MustEncode(gcnasm.Nop(0))
+	type ref struct {
+		kind string
+		snap Snap
+	}
+	refs := make([]ref, len(items))
+	for i, it := range items {
+		safeDecode(c.dB, nop)
+		o := safeDecode(c.dB, it.b)
+		refs[i].kind = o.Kind
+		if o.Kind == kInst {
+			refs[i].snap = snapInst(o.Inst)
+		}
+	}
+	c.out.count("mix_items", int64(len(items)))
+	canonPerm := vlib.NewPRNG(0xC04).Fork("mix")
+	for round := 0; round < 3+p.N; round++ {
+		canonical := round < 3
+		var perm []int
+		if canonical {
+			perm = canonPerm.Perm(len(items))
+		} else {
+			perm = base.ForkN("perm", round).Perm(len(items))
+		}
+		prev := "(first)"
+		for _, i := range perm {
+			c.before(items[i].b, "mix "+items[i].name)
+			o := safeDecode(c.dA, items[i].b)
+			c.out.count("mix_sequence_checks", 1)
+			v := viewOf(items[i].b)
+			wit := map[string]any{"bytes": hx(items[i].b), "inst": items[i].name, "predecessor": prev, "arch": c.arch.String()}
+			if o.Kind != refs[i].kind {
+				c.out.class("C04|state|sequence-dependent|outcome|"+v.Format, items[i].name, canonical,
+					"the outcome of Decode depends on the instruction decoded before it", wit)
+			} else if o.Kind == kInst {
+				if sn := snapInst(o.Inst); sn != refs[i].snap {
+					fl := strings.Join(diffSnap(refs[i].snap, sn), "+")
+					c.out.class("C04|state|sequence-dependent|"+refs[i].snap.Format+"|"+fl, items[i].name, canonical,
+						"the decoded instruction depends on the instruction decoded before it (fields "+fl+")", wit)
+				}
+			}
+			prev = items[i].name + " " + hx(items[i].b)
+		}
+	}
+}
+
 //nolint:gocyclo,funlen
 func runRT(p part, c *ctx, base *vlib.PRNG) {
 	out := c.out
 	f := rtFormats[p.Sub]
-	nOps := 1 << gcnasm.OpcodeFieldBits(f)
-	if f == gcnasm.VOP3a {
-		nOps = 896 // 896.. is the VOP3P encoding (ENCODING 110100111)
-	}
+	nOps := opcodeSpace(f)
 	for op := 0; op < nOps; op++ {
-		ff := f
-		if f == gcnasm.VOP3a && gcnasm.IsVOP3bOpcode(c.arch, op) {
-			ff = gcnasm.VOP3b
-		}
-		r := row{Arch: c.arch, Format: ff, Opcode: op}
-		// probe: is there a table row for this opcode?
-		probe, err := gcnasm.Encode(r.base())
-		if err != nil {
-			out.rec.Inconclusive(fmt.Sprintf("encoder rejected probe for %s: %v", r.id(), err))
+		r, ok := probeRow(c, f, op, true)
+		if !ok {
 			continue
 		}
-		if got := formatOf(binary.LittleEndian.Uint32(probe)); got != formatNameOf(ff) && !(got == "vop3" && (ff == gcnasm.VOP3a || ff == gcnasm.VOP3b)) && !(got == "vop3p" && ff == gcnasm.VOP3P) {
-			out.count("rt_opcode_values_belonging_to_other_format", 1)
-			continue // e.g. SOP2 OP=125 is the SOP1 encoding
-		}
-		c.before(probe, "probe "+r.id())
-		po := safeDecode(c.dA, probe)
-		if po.Kind == kError && notFoundRE.MatchString(po.Msg) {
-			out.count("rt_opcodes_without_row", 1)
-			continue
-		}
-		if po.Kind == kInst {
-			r.DecName = po.Inst.InstName
-			if ff == gcnasm.VOP3a && po.Inst.FormatName == "vop3b" {
-				// the simulator treats this opcode as VOP3b although the manual of this
-				// architecture lists it under VOP3a: describe it in the manual's layout
-				out.dist("vop3b_by_decoder_only", r.id())
-			}
-		}
-		names := gcnasm.NamesOf(ff, op)
-		dn := gcnasm.NormName(r.DecName)
-		switch {
-		case dn != "" && dn == names.GCN3, dn != "" && dn == names.CDNA3:
-			r.IsaName = dn
-		case dn == "":
-			r.IsaName = gcnasm.NameOf(c.arch, ff, op)
-			r.DecName = r.IsaName
-		}
-		if r.IsaName != "" {
-			r.W = gcnasm.WidthsOf(ff, op, r.IsaName)
-		}
-		out.count("rt_rows", 1)
-		out.count("rt_rows_"+ff.String(), 1)
-		if r.IsaName == "" {
-			out.count("rt_rows_name_mismatch", 1)
-			out.dist("name_mismatch", fmt.Sprintf("%s/%d dec=%s gcn3=%s cdna3=%s", ff, op, dn, names.GCN3, names.CDNA3))
-		} else if !r.W.Known {
-			out.count("rt_rows_widths_not_modelled", 1)
-		} else {
-			out.count("rt_rows_width_checked", 1)
-		}
+		ff := r.Format
 
 		pats := r.patterns(base.ForkN("row", op), p.N)
 		var ids []string
@@ -442,4 +587,5 @@ func runRT(p part, c *ctx, base *vlib.PRNG) {
 		}
 		out.dist("rt_row", r.id())
 	}
+	c.sequencePass()
 }
